@@ -649,10 +649,11 @@ class EditFaults:
             "process death and I/O errors at Python-visible filesystem "
             "operations (open, raw write, fsync, remove, rename/replace, ...); "
             "no power-loss reordering, no fault inside a single os.replace",
-            "deviation bound 1 (quick) / 2 (thorough): number of injected "
-            "faults per execution",
+            "deviation bound 2: at most two injected faults per execution "
+            "(the second one lands in whatever cleanup the first triggered)",
             "raw writes: crash / ENOSPC after k bytes and short writes for "
-            "k in {0,1,n/2,n-1} (thorough: every k when n <= 512)",
+            "k in {0,1,n/2,n-1} (thorough: additionally every k of every raw "
+            "write of up to 4096 bytes, at bound 1)",
             "only the metafile path is judged; temporary siblings are not",
             "seam completeness: an audit hook must find every mutating OS "
             "event of a fault-free run accounted for by the shim (else exit 2)",
@@ -672,7 +673,14 @@ class EditFaults:
                     for route in ("lib",) + (("cli",) if not
                                              name.startswith("unenc") else ()):
                         gs.append({"base": [ver, opts], "req": name,
-                                   "route": route, "seed": seed, "tier": tier})
+                                   "route": route, "seed": seed, "tier": tier,
+                                   "ks": "sample",
+                                   "bound": 2})
+                        if tier == "thorough" and route == "lib":
+                            # every byte position of every raw write
+                            gs.append({"base": [ver, opts], "req": name,
+                                       "route": route, "seed": seed,
+                                       "tier": tier, "ks": "all", "bound": 1})
         return gs
 
     def one_run(self, run, raw0, req_name, route, write_ks):
@@ -716,8 +724,8 @@ class EditFaults:
         seed = g["seed"]
         work = world.fresh_dir()
         raw0 = make_base(tuple(g["base"]), seed, work)
-        bound = 1 if g["tier"] == "quick" else 2
-        write_ks = "sample"
+        bound = g.get("bound", 1 if g["tier"] == "quick" else 2)
+        write_ks = g.get("ks", "sample")
         ex = e2.Explorer(bound, max_runs=200000)
         new = None
         unenc = g["req"].startswith("unenc")
